@@ -27,5 +27,9 @@ def main():
     print(log[-3000:])
     if not ok:
         rc = 1
+    r, out = vf.sh([os.path.join(vf.VERIF, "tools", "hygiene.sh")], timeout=300)
+    print(out[-1500:])
+    if r != 0:
+        rc = 1
     print("setup done in %.1fs rc=%d" % (time.time() - t0, rc))
     return rc
